@@ -84,6 +84,9 @@ type Scenario struct {
 	// connect timeout.
 	Hold        time.Duration
 	DialTimeout time.Duration
+	// ReadBufs: the buffer sizes the application readers cycle through
+	// (default: 32 KiB, gRPC's).
+	ReadBufs []int
 	// ClientGivesUp: the client makes one connection only and does not
 	// dial again when it fails.
 	ClientGivesUp bool
@@ -387,8 +390,12 @@ func (w *World) runApp(ss *Session, out, in []int, outTag, inTag string, closer 
 	})
 	vrt.Go(ss.Side+"-reader", func() {
 		defer wg.Done()
-		buf := make([]byte, 32768) // gRPC's read buffer size
-		for len(ss.Read) < total {
+		sizes := w.sc.ReadBufs
+		if len(sizes) == 0 {
+			sizes = []int{32768} // gRPC's read buffer size
+		}
+		for k := 0; len(ss.Read) < total; k++ {
+			buf := make([]byte, sizes[k%len(sizes)])
 			n, err := ss.Secured.Read(buf)
 			w.mu.Lock()
 			if n > 0 && n <= len(buf) {
